@@ -14,7 +14,7 @@ EXPLANATION = (
     "name tables bit for bit against the flag declarations and the pinned snapshot; the typed literal table; extended-instruction "
     "naming; the generator-id table. Global injectivity of the text is a statement about pairs of modules and is decided only "
     "through these per-renderer necessary conditions; float formatting is std's.")
-EXHAUSTIVE = True
+EXHAUSTIVE = False     # the abstract inputs are a stated finite scope, not the whole input space
 
 DIS = "rspirv::binary::disassemble"
 CON = "rspirv::dr::constructs"
